@@ -61,10 +61,10 @@ func (e *Env) genCorruption(op model.Op) *Corruption {
 		v := []string{"text/plain", "application/x-www-form-urlencoded", "application/xml", "json"}[t.Choice(4)]
 		return &Corruption{Kind: "ct-" + v, Class: "ill-formed", CT: sp(v)}
 	case 3:
-		return &Corruption{Kind: "nobrowsers-missing", Class: "ill-formed", NB: sp("")}
+		return &Corruption{Kind: "nobrowsers-missing", Class: "ill-formed", NB: sp(""), Extra: e.browserHeaders()}
 	case 4:
 		v := []string{"1", "true", "Setec", "setec2", "no"}[t.Choice(5)]
-		return &Corruption{Kind: "nobrowsers-" + v, Class: "ill-formed", NB: sp(v)}
+		return &Corruption{Kind: "nobrowsers-" + v, Class: "ill-formed", NB: sp(v), Extra: e.browserHeaders()}
 	case 5:
 		cut := t.Choice(64)
 		return &Corruption{Kind: "body-truncated", Class: "ill-formed", Body: func(b []byte) []byte {
@@ -120,4 +120,33 @@ func (e *Env) genCorruption(op model.Op) *Corruption {
 		// they then mean the zero request (empty name).
 		return &Corruption{Kind: "body-" + v, Class: "zero-request", Body: func([]byte) []byte { return []byte(v) }}
 	}
+}
+
+// browserHeaders: what a browser (or something posing as a well-behaved
+// one) sends along; none of it replaces the required header.
+func (e *Env) browserHeaders() map[string]string {
+	t := e.T
+	if t.Bool(1, 3) {
+		return nil
+	}
+	all := [][2]string{
+		{"Sec-Fetch-Site", []string{"same-origin", "same-site", "none", "cross-site"}[t.Choice(4)]},
+		{"Sec-Fetch-Mode", []string{"cors", "same-origin", "navigate", "no-cors"}[t.Choice(4)]},
+		{"Sec-Fetch-Dest", "empty"},
+		{"Origin", []string{"http://setec.sim", "https://setec.sim", "null"}[t.Choice(3)]},
+		{"Referer", "http://setec.sim/"},
+		{"X-Requested-With", "XMLHttpRequest"},
+		{"Cookie", "session=1"},
+		{"Authorization", "Bearer setec"},
+		{"X-Tailscale-No-Browsers", "setec"},
+		{"Sec-X-Tailscale-No-Browser", "setec"},
+		{"User-Agent", "setec-client/1.0"},
+	}
+	out := map[string]string{}
+	for _, kv := range all {
+		if t.Bool(1, 3) {
+			out[kv[0]] = kv[1]
+		}
+	}
+	return out
 }
